@@ -112,6 +112,9 @@ def run(tier):
   # C18_SingletonOnce, C20_Pristine); random walks of a model with only these actions, replayed into gin
   from ginverif.checks import common_core as cc
   n = 80 if tier == 'quick' else 1500
+  # nested singletons (the constructor of one is configured with a reference to another), by shortest witnesses
+  cc.replay_scenarios(rep, 'GinCore_Scen_nested', max_files=150 if tier == 'quick' else 1000, nontrivial=_single_case,
+                      depth=6 if tier == 'quick' else 7, timeout=200)
   cc.replay_behaviours(rep, 'GinCore_Sim_singleton', num=n, depth=10, nontrivial=_single_case, generate=n * 6, seed_off=37)
   return rep.finish()
 
